@@ -346,6 +346,12 @@ let cc_list (ds : (M.n * M.z) list) : string =
 
 let bytes_of_str (s : string) : M.ascii list = List.init (String.length s) (fun i -> ascii_of_int (Char.code s.[i]))
 
+(* Date texts the model reads: the canonical text (39 bytes) and IMF-fixdate (29 bytes ending in " GMT"); the other forms
+   date::from_stream accepts are implementation-only *)
+let date_modelled (v : M.ascii list) : bool =
+  let n = List.length v in
+  n = 39 || (n = 29 && (let s = str_of_bytes v in String.sub s 25 4 = " GMT"))
+
 (* text a typed header writes after parsing value v, for the modelled kinds *)
 let typed_written (nm : string) (v : M.ascii list) : string option option =
   let once parse write = Some (match parse v with None -> None | Some h -> Some (hex_of_bytes (write h))) in
@@ -358,6 +364,7 @@ let typed_written (nm : string) (v : M.ascii list) : string option option =
   | "server" -> once (fun x -> Some (M.server_parse x)) M.server_write
   | "location" | "user-agent" | "authorization" | "access-control-allow-origin" | "access-control-allow-headers"
   | "access-control-expose-headers" | "access-control-allow-methods" -> once (fun x -> Some x) (fun x -> x)
+  | "date" when date_modelled v -> once M.date_read M.date_write
   | _ -> None
 
 let header_case (toks : string list) : string =
@@ -379,6 +386,7 @@ let header_case (toks : string list) : string =
      | "cache-control" -> twice M.cc_parse_top M.cc_write
      | "host" -> twice M.host_parse M.host_write
      | "server" -> twice (fun x -> Some (M.server_parse x)) M.server_write
+     | "date" when date_modelled v -> twice M.date_read M.date_write
      | "location" | "user-agent" | "authorization" | "access-control-allow-origin" | "access-control-allow-headers"
      | "access-control-expose-headers" | "access-control-allow-methods" -> twice (fun x -> Some x) (fun x -> x)
      | _ -> "IMPL-ONLY")
